@@ -70,6 +70,17 @@ def run_diff(case: Dict[str, Any]) -> Dict[str, Any]:
         h.handle = handle
         return ctx, rp, rec
 
+    def cosim_table(rp):
+        """what hive_cosim keeps for a grid co-simulation client: the charge events of this simulation (multiset of rows)."""
+        from nrel.hive.reporting.handler.vehicle_charge_events_handler import VehicleChargeEventsHandler
+
+        h = next((x for x in rp.e.reporter.handlers if isinstance(x, VehicleChargeEventsHandler)), None)
+        if h is None:
+            return None
+        ev = h.get_events()
+        keys = sorted(ev.keys())
+        return collections.Counter(zip(*[[str(x) for x in ev[k]] for k in keys])) if keys and all(len(ev[k]) == len(ev[keys[0]]) for k in keys) else "ragged"
+
     ctxs = []
     try:
         # reference: crank(1) x n
@@ -95,6 +106,13 @@ def run_diff(case: Dict[str, Any]) -> Dict[str, Any]:
             ref_full.append(rp.s)
         if len(ref.ev) != n:
             violate("flushes-differ-from-steps", f"{len(ref.ev)} flushes for {n} steps of crank(1)")
+        ref_table = cosim_table(rp)
+        # the table holds this simulation's charge records and nothing else
+        ref_charges = sum(c for (k_, c) in ref.all.items() if k_[0] == "VEHICLE_CHARGE_EVENT") if ref_table is not None else 0
+        if ref_table is not None and ref_table != "ragged":
+            cnt["c15_cosim_charge_rows"] += sum(ref_table.values())
+            if sum(ref_table.values()) != ref_charges:
+                violate("cosim-charge-table-differs-from-the-charge-events-delivered", f"get_events() holds {sum(ref_table.values())} rows, the handlers were given {ref_charges} charge events in this simulation")
         # variants: random compositions
         for var in range(case.get("variants", 2)):
             parts = []
@@ -135,6 +153,12 @@ def run_diff(case: Dict[str, Any]) -> Dict[str, Any]:
             if rec.ev != ref.ev[: len(rec.ev)] or len(rec.ev) != n:
                 k = next((i for i, (x, y) in enumerate(zip(rec.ev, ref.ev)) if x != y), min(len(rec.ev), len(ref.ev)))
                 violate("split-run-events-differ", f"events of step {k} differ between crank(1) x n and the split {parts[:12]} ({len(rec.ev)} vs {len(ref.ev)} flushes)", parts=parts[:30])
+            tab = cosim_table(rp)
+            if tab != ref_table and len(rec.ev) == n:
+                cnt_a = sum(tab.values()) if isinstance(tab, collections.Counter) else tab
+                cnt_b = sum(ref_table.values()) if isinstance(ref_table, collections.Counter) else ref_table
+                violate("split-run-cosim-charge-table-differs", f"charge events kept for the co-simulation client: {cnt_a} rows after the split run {parts[:12]}, {cnt_b} after crank(1) x n", parts=parts[:30])
+            cnt["c15_cosim_tables_compared"] += 1
             cnt["c15_compositions"] += 1
             cnt["c15_parts"] += len(parts)
         # deferred delivery: some calls are made with flush_events=False (their reports stay queued), the next flushing call
@@ -213,6 +237,69 @@ def run_diff(case: Dict[str, Any]) -> Dict[str, Any]:
                 violate("runner-step-wrong", f"LocalSimulationRunner.step from start gave {None if one is None else int(one.s.sim_time)}")
             elif n >= 1 and fp_state(one.s, ids=False) != ref_states[0]:
                 violate("runner-step-state-differs", "one LocalSimulationRunner.step differs from crank(1)")
+        # the two documented ways of running a scenario with the same generators: hive_cosim.load_scenario + crank, and what
+        # run_sim does (load_config + load_simulation + LocalSimulationRunner.run) - same states, same events
+        if case.get("loadpaths"):
+            import shutil
+
+            from hivemon.common import scratch_base
+            from hivemon.gen.scenario import write_scenario
+            from nrel.hive.reporting.handler.handler import Handler
+            from nrel.hive.dispatcher.instruction_generator.charging_fleet_manager import ChargingFleetManager
+            from nrel.hive.dispatcher.instruction_generator.dispatcher import Dispatcher
+            from nrel.hive.initialization.load import load_config, load_simulation
+
+            spec3 = dict(spec, sim=dict(spec["sim"], end=start + n * dt))
+            wd = scratch_base() / f"case_p{os.getpid()}"
+            kinds = {
+                "none": lambda cfg: None,
+                "empty": lambda cfg: (),  # no fleet-level control at all: the drivers alone decide
+                "dispatcher-only": lambda cfg: (Dispatcher(cfg.dispatcher),),
+                "as-a-list": lambda cfg: [Dispatcher(cfg.dispatcher), ChargingFleetManager(cfg.dispatcher)],
+                "reversed": lambda cfg: (ChargingFleetManager(cfg.dispatcher), Dispatcher(cfg.dispatcher)),
+            }
+            for kind in case["loadpaths"]:
+                outs = []
+                for path in ("cosim", "batch"):
+                    shutil.rmtree(wd, ignore_errors=True)
+                    wd.mkdir(parents=True)
+                    y = write_scenario(spec3, wd)
+                    os.chdir(y.parent)
+                    rec = Rec()
+
+                    class H(Handler):
+                        def handle(self, reports, runner_payload, rec=rec):
+                            rec.all.update(canon_reports(reports))
+                            rec.t.append(int(runner_payload.s.sim_time))
+
+                        def close(self, runner_payload):
+                            pass
+
+                    with quiet_stdout(), contextlib.redirect_stderr(io.StringIO()):
+                        cfg = load_config(y, "run")
+                        if path == "cosim":
+                            rp = hc.load_scenario(y, custom_instruction_generators=kinds[kind](cfg), output_suffix="run")
+                            rp.e.reporter.add_handler(H())
+                            rp = hc.crank(rp, n).runner_payload
+                        else:
+                            rp = load_simulation(cfg, custom_instruction_generators=kinds[kind](cfg))
+                            rp.e.reporter.add_handler(H())
+                            rp = LocalSimulationRunner.run(rp)
+                    outs.append((fp_state(rp.s, ids=False), rec, rp.s))
+                    for hh in getattr(rp.e.reporter, "handlers", []):
+                        for attr in ("log_file", "instructions_file", "file"):
+                            f_ = getattr(hh, attr, None)
+                            if f_ is not None and hasattr(f_, "close"):
+                                f_.close()
+                cnt["c15_load_paths_compared"] += 1
+                if kind == "empty":
+                    cnt["c15_load_paths_compared_without_fleet_level_generators"] += 1
+                (fa, ra, sa), (fb, rb, sb) = outs
+                if fa != fb:
+                    violate("batch-run-differs-from-cosim-run-of-the-same-arguments", f"generators '{kind}': state after {n} steps through load_scenario + crank differs from load_simulation + LocalSimulationRunner.run", generators=kind, diff=diff_states(sa, sb, ids=False))
+                elif ra.all != rb.all:
+                    lost, extra = ra.all - rb.all, rb.all - ra.all
+                    violate("batch-run-events-differ-from-cosim-run-of-the-same-arguments", f"generators '{kind}': {sum(lost.values())} reports only in the co-simulation run, {sum(extra.values())} only in the batch run", generators=kind)
     finally:
         for c in ctxs:
             cleanup(c)
@@ -237,7 +324,7 @@ def build_cases(tier, seed):
         spec = random_spec(s, prof)
         spec["global"]["log_events"] = False
         steps = spec["sim"]["steps"]
-        cases.append({"engine": "c15_diff", "id": f"C15-{i}", "seed": s, "spec": spec, "steps": steps, "variants": 2 if tier == "quick" else 3, "inject": True, "end_offset": [0, 0, 1, spec["sim"]["dt"] // 2][i % 4], "controller": [None, {"stack": ["Dispatcher", "ChargingFleetManager", {"hostile": {"p": 0.2, "seed": 11}}]}, {"stack": ["Dispatcher", "ChargingFleetManager", {"stateful": {"k": 2 + i % 3}}]}, {"stack": ["Dispatcher", "ChargingFleetManager", {"random_draw": {"k": 1 + i % 3}}]}][i % 4]})
+        cases.append({"engine": "c15_diff", "id": f"C15-{i}", "seed": s, "spec": spec, "steps": steps, "variants": 2 if tier == "quick" else 3, "inject": True, "loadpaths": [["none", "empty"], ["empty", "reversed"], ["dispatcher-only", "as-a-list"], ["empty"]][(i // 4) % 4] if i % 4 == 0 else None, "end_offset": [0, 0, 1, spec["sim"]["dt"] // 2][i % 4], "controller": [None, {"stack": ["Dispatcher", "ChargingFleetManager", {"hostile": {"p": 0.2, "seed": 11}}]}, {"stack": ["Dispatcher", "ChargingFleetManager", {"stateful": {"k": 2 + i % 3}}]}, {"stack": ["Dispatcher", "ChargingFleetManager", {"random_draw": {"k": 1 + i % 3}}]}][i % 4]})
     if tier == "thorough":
         for w, st in (("denver_downtown/denver_demo.yaml", 300), ("denver_downtown/denver_demo_fleets.yaml", 300)):
             pass  # shipped scenarios use ISO end times in the yaml; the generated ones cover the same code paths
